@@ -172,6 +172,12 @@ class Spread:
         self.value = value
 
 
+class SliceV:
+    """slice(lo, hi)"""
+    def __init__(self, lo, hi):
+        self.lo, self.hi = lo, hi
+
+
 class DictLit:
     """a dict literal {"name": value, ...}"""
     def __init__(self, items):
@@ -619,6 +625,10 @@ class Exec:
             if attr in ("start", "stop", "step"):
                 return [(getattr(o, attr), q)]
             self.unsupported(node, "range attribute")
+        if isinstance(o, SliceV):
+            if attr in ("start", "stop"):
+                return [(o.lo if attr == "start" else o.hi, q)]
+            self.unsupported(node, "slice attribute")
         if isinstance(o, SymObj):
             key = (id(o), attr)
             if key in q.heap:
@@ -846,6 +856,11 @@ class Exec:
             if isinstance(vals, Raised):
                 out.append((vals, q)); continue
             a, b = vals
+            if isinstance(a, SymObj) and a.model is not None and hasattr(a.model, "binop"):
+                # an object whose operators are given by contract (e.g. `m.d.comb += [...]` on a recording Module stub)
+                r = a.model.binop(self, a, e.op, b, q, e)
+                if r is not None:
+                    out.append((r, q)); continue
             if isinstance(a, Opaque) or isinstance(b, Opaque):
                 out.append((Opaque("binop"), q)); continue
             if isinstance(a, tuple) and isinstance(b, tuple) and isinstance(e.op, ast.Add):
@@ -1012,6 +1027,11 @@ class Exec:
             if r is not None:
                 return r
         self.unsupported(node, f"isinstance({v!r}, {ty})")
+
+    def b_slice(self, args, kwargs, q, e):
+        if len(args) != 2:
+            self.unsupported(e, "slice() with other than two arguments")
+        return [(SliceV(self.toint(args[0], e), self.toint(args[1], e)), q)]
 
     def b_max(self, args, kwargs, q, e):
         x, y = self.toint(args[0], e), self.toint(args[1], e)
